@@ -55,12 +55,12 @@ pub fn doc_html(body: &[N]) -> String {
 #[derive(Clone, Copy)]
 pub struct Feat {
     pub tables: bool, pub ids: bool, pub links: bool, pub pre: bool, pub imgs: bool, pub wide: bool, pub zero: bool,
-    pub lists: bool, pub quotes: bool, pub heads: bool, pub dl: bool, pub inline: bool, pub strike: bool, pub br: bool,
-    pub colspan: bool, pub nested_tables: bool, pub sup: bool, pub unique: bool, pub linky: bool, pub maxdepth: u32,
+    pub lists: bool, pub quotes: bool, pub heads: bool, pub dl: bool, pub inline: bool, pub strike: bool, pub br: bool, pub stray: bool,
+    pub colspan: bool, pub nested_tables: bool, pub sup: bool, pub unique: bool, pub linky: bool, pub odd_href: bool, pub maxdepth: u32,
 }
 impl Feat {
     pub fn all() -> Feat { Feat { tables: true, ids: false, links: true, pre: true, imgs: true, wide: true, zero: true, lists: true, quotes: true,
-        heads: true, dl: true, inline: true, strike: true, br: true, colspan: true, nested_tables: true, sup: false, unique: true, linky: false, maxdepth: 3 } }
+        heads: true, dl: true, inline: true, strike: true, br: true, stray: false, colspan: true, nested_tables: true, sup: false, unique: true, linky: false, odd_href: false, maxdepth: 3 } }
     pub fn notables() -> Feat { Feat { tables: false, colspan: false, nested_tables: false, ..Feat::all() } }
 }
 
@@ -80,6 +80,8 @@ impl<'a> G<'a> {
         for _ in 0..extra { s.push(LETTERS[self.r.below(26) as usize] as char); }
         if self.f.wide && self.r.chance(1, 5) { let p = self.r.below(s.len() as u64 + 1) as usize; s.insert(p, *self.r.pick(&['一', '二', '語', '🎉'])); }
         if self.f.zero && self.r.chance(1, 8) { s.push('\u{301}'); }
+        // characters without any width: C0 / DEL control characters (dropped by the renderer)
+        if self.f.zero && self.r.chance(1, 20) { let p = self.r.below(s.len() as u64 + 1) as usize; if s.is_char_boundary(p) { s.insert(p, *self.r.pick(&['\u{1}', '\u{1b}', '\u{7f}', '\u{8}'])); } }
         if s.is_empty() { s.push('x'); }
         s
     }
@@ -119,7 +121,9 @@ impl<'a> G<'a> {
                 9 if f.strike => N::el(*self.r.pick(&["s", "del"]), self.inlines(depth + 1)),
                 10 if f.links && !self.in_a => {
                     self.in_a = true; let kids = self.inlines(depth + 1); self.in_a = false;
-                    let href = format!("//0.0/{}", self.r.below(50));
+                    // (odd targets: empty, blank, or with wide characters - never letters, see C03's assumption)
+                    let href = if f.odd_href && self.r.chance(1, 6) { (*self.r.pick(&["", " ", "#", "//0.0/\u{3000}\u{3001}\u{3002}/\u{ff01}\u{ff02}\u{ff03}\u{ff04}\u{ff05}\u{ff06}\u{ff07}\u{ff08}\u{ff09}\u{ff0a}", "//\u{ff10}\u{ff11}.\u{ff12}/\u{ff13}\u{ff14}\u{ff15}\u{ff16}\u{ff17}\u{ff18}\u{ff19}/1234567890123"])).to_string() }
+                               else { format!("//0.0/{}", self.r.below(50)) };
                     let mut n = if self.r.chance(1, 10) { N::el("a", kids) } else { N::ela("a", vec![("href", href)], kids) };
                     self.maybe_id(&mut n, true);
                     return n;
@@ -131,7 +135,13 @@ impl<'a> G<'a> {
                     N::ela("img", at, vec![])
                 }
                 12 if f.inline => N::el("span", self.inlines(depth + 1)),
-                13 if f.sup => N::el("sup", if self.r.chance(1, 2) { vec![N::T(format!("{}", self.r.below(120)))] } else { self.inlines(depth + 1) }),
+                13 if f.sup => N::el("sup", match self.r.below(8) {
+                    0 | 1 | 2 => vec![N::T(format!("{}", self.r.below(120)))],
+                    // numeric characters that are not ASCII digits
+                    3 => vec![N::T((*self.r.pick(&["\u{b2}", "\u{bd}", "\u{661}\u{662}", "\u{ff11}", "1\u{b2}", "\u{2460}"])).to_string())],
+                    // digits first, then more content
+                    4 => { let mut v = vec![N::T(format!("{}", self.r.below(30)))]; v.push(N::el(*self.r.pick(&["em", "span", "strong"]), vec![N::T(self.token())])); if self.r.chance(1, 2) { v.push(N::T(self.token())); } v }
+                    _ => self.inlines(depth + 1) }),
                 _ => continue,
             };
             if !matches!(n, N::E(ref nm, _, _) if nm == "br" || nm == "img") { self.maybe_id(&mut n, false); }
@@ -182,6 +192,13 @@ impl<'a> G<'a> {
         }
         v
     }
+    /// Content placed directly inside a list (not valid HTML, but parsed as written): a word, or an inline element.
+    fn stray_into(&mut self, items: &mut Vec<N>) {
+        if !self.f.stray || !self.r.chance(1, 5) { return; }
+        let at = self.r.below(items.len() as u64 + 1) as usize;
+        let n = if self.r.chance(1, 2) { N::T(self.token()) } else { N::el(*self.r.pick(&["em", "span", "strong"]), vec![N::T(self.token())]) };
+        items.insert(at, n);
+    }
     pub fn table(&mut self, depth: u32) -> N {
         let f = self.f;
         self.in_table += 1;
@@ -201,6 +218,7 @@ impl<'a> G<'a> {
                     _ => self.inlines(depth + 1),
                 };
                 let mut td = N::el(if self.r.chance(1, 6) { "th" } else { "td" }, kids);
+                if span > 1 && self.r.chance(1, 3) { td.add_attr(*self.r.pick(&["align", "class", "scope"]), "c".into()); }   // colspan need not come first
                 if span > 1 { td.add_attr("colspan", format!("{}", span)); }
                 self.maybe_id(&mut td, false);
                 cellsv.push(td);
@@ -214,12 +232,17 @@ impl<'a> G<'a> {
         self.in_table -= 1;
         let mut t = if self.r.chance(1, 3) {
             let k = self.r.below(rows.len() as u64 + 1) as usize;
-            let tail = rows.split_off(k);
+            let mut tail = rows.split_off(k);
             let mut parts = vec![];
             if !rows.is_empty() { parts.push(N::el("thead", rows)); }
+            // (sometimes the last row sits in a <tfoot>)
+            let foot = if tail.len() >= 2 && self.r.chance(1, 2) { tail.pop() } else { None };
             if !tail.is_empty() { parts.push(N::el("tbody", tail)); }
+            if let Some(fr) = foot { parts.push(N::el("tfoot", vec![fr])); }
             N::el("table", parts)
         } else { N::el("table", rows) };
+        // a <caption> (first child of the table)
+        if self.r.chance(1, 6) { let cap = N::el("caption", vec![N::T(self.token())]); if let N::E(_, _, ks) = &mut t { ks.insert(0, cap); } }
         self.maybe_id(&mut t, false);
         t
     }
@@ -236,6 +259,7 @@ impl<'a> G<'a> {
                     let m = 1 + self.r.below(3);
                     let mut items = Vec::new();
                     for _ in 0..m { let mut li = N::el("li", self.flow(depth + 1)); self.maybe_id(&mut li, false); items.push(li); }
+                    self.stray_into(&mut items);
                     N::el("ul", items)
                 }
                 6 if f.lists => {
@@ -245,13 +269,16 @@ impl<'a> G<'a> {
                     let st = *self.r.pick(&starts);
                     let mut items = Vec::new();
                     for _ in 0..m { let mut li = N::el("li", self.flow(depth + 2)); self.maybe_id(&mut li, false); items.push(li); }
+                    self.stray_into(&mut items);
                     if self.r.chance(1, 3) { N::el("ol", items) } else { N::ela("ol", vec![("start", format!("{}", st))], items) }
                 }
                 7 if f.heads => { let l = 1 + self.r.below(6); N::el(&format!("h{}", l), self.inlines(depth + 1)) }
                 8 if f.dl => {
                     let mut dt = N::el("dt", self.inlines(depth + 1)); self.maybe_id(&mut dt, false);
                     let mut dd = N::el("dd", self.flow(depth + 1)); self.maybe_id(&mut dd, false);
-                    N::el("dl", vec![dt, dd])
+                    let mut items = vec![dt, dd];
+                    self.stray_into(&mut items);
+                    N::el("dl", items)
                 }
                 9 if f.pre => {
                     if !f.inline || self.r.chance(1, 2) { let t = self.pre_text(); N::el("pre", vec![N::T(t)]) }
